@@ -863,19 +863,40 @@ def evaluate__replace(self: XPathFunction, context: ta.ContextType = None) -> st
             msg = f"Regular expression {pattern!r} matches zero-length string"
             raise self.error('FORX0003', msg)
         elif q_flag:
-            # use replacement string as is (but inactivating escapes)
-            replacement = replacement.replace('\\', '\\\\')
-            input_string = input_string.replace('\\', '\\\\')
-            return re_pattern.sub(replacement, input_string).replace('\\\\', '\\')
+            # use replacement string as is
+            return re_pattern.sub(lambda m: replacement, input_string)
 
         elif Patterns.replacement.search(replacement) is None:
             raise self.error('FORX0004', f"Invalid replacement string {replacement!r}")
         else:
-            for g in range(re_pattern.groups, -1, -1):
-                if '$%d' % g in replacement:
-                    replacement = re.sub(r'(?<!\\)\$%d' % g, r'\\g<%d>' % g, replacement)
+            # The replacement string is decoded into literal parts and group numbers
+            # and applied only to the matches (the text copied from the input string
+            # can contain sequences like '\\$' that must not be decoded).
+            parts: list[Union[str, int]] = []
+            k = 0
+            while k < len(replacement):
+                if replacement[k] == '\\':
+                    parts.append(replacement[k + 1])
+                    k += 2
+                elif replacement[k] == '$':
+                    j = k + 2
+                    while j < len(replacement) and replacement[j].isdigit() \
+                            and int(replacement[k + 1:j + 1]) <= re_pattern.groups:
+                        j += 1
+                    parts.append(int(replacement[k + 1:j]))
+                    k = j
+                else:
+                    parts.append(replacement[k])
+                    k += 1
 
-            return re_pattern.sub(replacement, input_string).replace('\\$', '$')
+            def expand(match: re.Match[str]) -> str:
+                return ''.join(
+                    x if isinstance(x, str) else
+                    match.group(x) or '' if x <= re_pattern.groups else ''
+                    for x in parts
+                )
+
+            return re_pattern.sub(expand, input_string)
 
 
 @method(function('tokenize', nargs=(1, 3),
